@@ -19,6 +19,9 @@ theorem rt_clean (F : Framing) (cfg : Cfg) (hdr : cfg.requireDrained = true) (hh
       hd ++ body <+: resp ∧ (c.stream = false → hd ++ body = resp)) := by
   rcases hwf with ⟨hl, bl, cl, hlen, hparse, hshort⟩
   unfold roundTrip
+  by_cases hwfail : c.writeFails = true
+  · simp [hwfail]
+  simp only [hwfail, Bool.false_eq_true, if_false]
   simp only [List.nil_append]
   by_cases ha : arrive < hl
   · rw [hshort arrive ha]; simp
